@@ -84,7 +84,7 @@ def run_kani(ov, filters, jobs, harness_timeout, total_timeout, extra, json_out,
     return rc, time.time() - t0
 
 
-def classify(prop, results, known):
+def classify(prop, results, known, expected_panics=()):
     """Returns (violations, findings, inconclusive, stats, per_harness)."""
     violations, findings, inconclusive = [], [], []
     per_harness = []
@@ -139,6 +139,8 @@ def classify(prop, results, known):
                 if mode in ("xpanic", "mpanic") and not in_harness and cat not in PANIC_CATEGORIES:
                     hi.append(f"non-panic failure `{desc}` [{cat}] at {file}:{loc.get('line')} in may-panic harness")
                     continue
+                if in_harness and mode in ("xpanic", "mpanic") and any(re.search(x, desc) for x in expected_panics):
+                    continue  # crate macro expanded inside the harness file: the panic is the crate's
                 if in_harness:
                     hi.append(f"harness-side failure `{desc}` [{cat}] at {file}:{loc.get('line')}")
                     continue
@@ -292,7 +294,7 @@ def run_check(prop, tier, cfg):
         data = json.load(open(json_out))
         results = data.get("verification_results", {}).get("results", [])
         n_expected = len(data.get("harness_metadata", []))
-        violations, findings, inconcl, tot, per_h = classify(prop, results, known)
+        violations, findings, inconcl, tot, per_h = classify(prop, results, known, cfg.get("expected_panics", ()))
         if len(results) != n_expected:
             inconcl.append(f"{n_expected} harnesses selected but {len(results)} reported")
         if n_expected == 0:
